@@ -431,7 +431,7 @@ def _generated_start(rng):
         shutil.rmtree(wd, ignore_errors=True)
 
 
-def build_start(rng, starts_allowed, nsteps, profile="plain", avoid=(), gen=0.0):
+def build_start(rng, starts_allowed, nsteps, profile="plain", avoid=(), gen=0.0, groups=None):
     """-> (model, start name, applied steps).  History steps that fail are dropped.
     gen: probability of a generated control stream as start model (no history steps on those)."""
     from vp import histories
@@ -452,7 +452,7 @@ def build_start(rng, starts_allowed, nsteps, profile="plain", avoid=(), gen=0.0)
     model = decorate(S[sname], rng, profile)
     A = histories.alphabet()
     steps = []
-    for name in histories.random_history(rng, nsteps, HIST_GROUPS):
+    for name in histories.random_history(rng, nsteps, groups or HIST_GROUPS):
         if name in avoid:
             continue
         try:
@@ -775,7 +775,10 @@ def case_cov(c, rng, idx, K):
                     except (ValueError, ZeroDivisionError):
                         pass
         vals, rec, amounts, t, E0, A = pts[0]
-        c.violate(None, f"{c.sample['call']}: {p} after = {_f(A[0][p])}, before = {_f(E0[0][p])} at {cov}={rec[cov]}, "
+        key = None
+        if allow_nested and already and f"{p}{cov}" in assigned_names(M):
+            key = "C09/nested-covariate-effect-reuses-effect-symbol"
+        c.violate(key, f"{c.sample['call']}: {p} after = {_f(A[0][p])}, before = {_f(E0[0][p])} at {cov}={rec[cov]}, "
                         f"new thetas {[(q, _f(vals[q])) for q in newp]}: not the documented effect function for any documented "
                         f"centring statistic {stats['median'] if not cat else stats['most_common']}{why}")
         return c
@@ -1511,6 +1514,13 @@ def case_iov(c, rng, idx, K):
     lop = chosen if rng.random() < 0.75 else None
     if lop is None:
         chosen = iivs[:]
+        fixed_par = {q.name for q in M.parameters if q.fix}
+        if any(set(d.parameter_names) & fixed_par for d in M.random_variables.etas):
+            # default "all": pharmpy leaves out etas with a fixed variance - not documented either way
+            c.hit("not_judged:add-iov-to-all-etas-with-fixed-variances")
+            c.sample = {"kind": "iov", "start": sname, "steps": steps}
+            c.fp = fp_of("iov", sname, steps, "nj")
+            return c
     if len(chosen) > 3:
         c.skipped = "too-many-etas"
         return c
@@ -2615,6 +2625,9 @@ def case_blq(c, rng, idx, K):
 
 
 # ====================================================================================================== absorption
+STRUCTURAL_ONLY = {"structural": 1, "stochastic": 0, "error": 0, "covariate": 0, "parameter": 0, "refactor": 0}
+
+
 def _graph(model, st):
     """Independent reading of the compartment graph at a store: dosing compartments, central (has the output flow),
     numeric outflow rates."""
@@ -2649,7 +2662,7 @@ def case_absorption(c, rng, idx, K):
     which = rng.choice(["FO", "ZO", "SEQ"])
     nsteps = rng.choice([0, 0, 1])
     M, sname, steps = build_start(rng, ["pheno_iv", "pheno_oral", "pheno_zo", "pheno_2cmt"], nsteps,
-                                  avoid=("set_transit_compartments", "add_lag_time") + PD_STEPS)
+                                  avoid=("set_transit_compartments", "add_lag_time") + PD_STEPS, groups=STRUCTURAL_ONLY)
     fn = {"FO": pm.set_first_order_absorption, "ZO": pm.set_zero_order_absorption, "SEQ": pm.set_seq_zo_fo_absorption}[which]
     c.sample = {"kind": "absorption", "start": sname, "steps": steps, "call": f"{fn.__name__}(m)"}
     c.fp = fp_of("absorption", sname, steps, which)
@@ -2658,6 +2671,9 @@ def case_absorption(c, rng, idx, K):
         return c
     if M2.statements.ode_system is None:
         c.skipped = "no-ode"
+        return c
+    if M2.statements == M.statements:
+        c.hit("not_judged:absorption-already-of-requested-kind")
         return c
     recs = records(M2)
     judged = 0
@@ -2720,7 +2736,13 @@ def case_transit(c, rng, idx, K):
 
     nsteps = rng.choice([0, 0, 1])
     M, sname, steps = build_start(rng, ["pheno_oral", "pheno_oral", "pheno_iv", "pheno_2cmt"], nsteps,
-                                  avoid=("set_transit_compartments", "add_lag_time", "remove_lag_time") + PD_STEPS)
+                                  avoid=("set_transit_compartments", "add_lag_time", "remove_lag_time", "set_seq_zo_fo_absorption",
+                                         "set_zero_order_absorption") + PD_STEPS, groups=STRUCTURAL_ONLY)
+    if "MDT" in assigned_names(M):
+        c.hit("not_judged:MDT-symbol-exists-before-transits")
+        c.sample = {"kind": "transit", "start": sname, "steps": steps}
+        c.fp = fp_of("transit", sname, steps, "nj")
+        return c
     n1 = rng.choice([2, 3, 5] if sname != "pheno_oral" else [1, 2, 3, 5])
     keep = rng.random() < 0.6
     second = rng.random() < 0.5
@@ -2785,7 +2807,7 @@ def case_lagtime(c, rng, idx, K):
 
     nsteps = rng.choice([0, 1, 2])
     M, sname, steps = build_start(rng, ["pheno_iv", "pheno_oral", "pheno_zo", "pheno_2cmt"], nsteps,
-                                  avoid=("add_lag_time", "set_transit_compartments") + PD_STEPS)
+                                  avoid=("add_lag_time", "set_transit_compartments") + PD_STEPS, groups=STRUCTURAL_ONLY)
     c.sample = {"kind": "lagtime", "start": sname, "steps": steps, "call": "add_lag_time(m)"}
     c.fp = fp_of("lagtime", sname, steps)
     try:
